@@ -13,8 +13,11 @@ None == 0   \* (a scale of zero is rejected by the library, so 0 is free to stan
 VARIABLES b, obs
 vars == <<b, obs>>
 Init == b \in BInit /\ obs = [kind |-> "none", b |-> None]
+\* An operation whose result depends on the scale ("dependent") must fix it from the first grid it
+\* sees; an operation that does not use the scale at all (e.g. a constant higher derivative of the
+\* linear map) may leave it undetermined.  Which operations are dependent is measured by the harness.
 Call(op_, xmax_) ==
-    /\ b' \in (IF b = None THEN {None, xmax_} ELSE {b})   \* which operations fix b is not prescribed
+    /\ b' \in (IF b = None THEN {None, xmax_} ELSE {b})
     /\ obs' = [kind |-> op_, b |-> b']
 Next == \E op_ \in Ops, xm_ \in XMaxs : Call(op_, xm_)
 Spec == Init /\ [][Next]_vars
